@@ -732,8 +732,15 @@ def unpack_serializable_type(spec: ValueSpec) -> Optional[Expression]:
 def unpack_generic_serializable_type(spec: ValueSpec) -> Optional[Expression]:
     with suppress(TypeError):
         if issubclass(spec.origin_type, GenericSerializableType):
+            # the type arguments are pasted as code: a local class must go
+            # through its identifier, like every other type reference
             type_arg_names = ", ".join(
-                list(map(type_name, get_args(spec.type)))
+                list(
+                    map(
+                        spec.builder.get_type_name_identifier,
+                        get_args(spec.type),
+                    )
+                )
             )
             field_type = spec.builder.get_type_name_identifier(
                 spec.origin_type
